@@ -106,10 +106,15 @@ REG = {
                 rule="exhaustive inside the grid: resolutions 1..60 min (all 60 in both tiers) x 4 start offsets (2 in quick) x windows up to 3 days: "
                      "size law, strict monotonicity, index(time(i))=i, floor-inverse at +1s/+res/2/+res-1 for EVERY index, rejection/clamping of "
                      "out-of-range indices and instants, for Scoreboard and Project conversions, both implementations; collectIntervals against a "
-                     "brute-force reference on EVERY pattern up to length 9 (quick) / 12 (thorough) x every query window x minimum lengths 0..3",
+                     "brute-force reference on EVERY pattern up to length 9 (quick) / 12 (thorough) x every query window x minimum lengths 0..3; the "
+                     "tables of 420 REAL projects (every resolution x 5 project lengths, quick: 3-4 lengths) - size formula = project table = resource "
+                     "tables = ceil+1, last slot >= end, round trip",
                 quick=dict(cases=1, budget_s=300, min_nontrivial=50), thorough=dict(cases=1, budget_s=1500, min_nontrivial=200),
                 deciding_monitors=["law-evaluations", "collect-evaluations"], ext=["fresh"],
-                assumptions=["grid bounds as stated in 'rule'; outside them nothing is claimed"]),
+                assumptions=["grid bounds as stated in 'rule'; outside them nothing is claimed",
+                             "interval scanning works on whole slots as in TaskJuggler: a query window is the slots from index(start) to index(end), "
+                             "the minimum length is floor(minDuration / resolution) slots (at least 1), results are slot-aligned",
+                             "the last table index (the slot that starts at the window end) is an end marker and never part of a run"]),
     "C11": dict(module="vlib.props.c11", level="fault_enumeration",
                 rule="input classes: valid random (6 dialects), dependency cycles + self-dependencies, bounds/pins/deadlines/gaps past the project "
                      "end or before its start, resources that never work, boundary efforts (0, 1min, 150000h, 3y ...), unknown resources/tasks, empty "
